@@ -329,9 +329,8 @@ def main(ctx):
     k = len(SMALL_OPS)
     plen = 1 if depth <= 4 else 2
     jobs = [(p, depth) for p in itertools.product(range(k), repeat=plen)]
-    with multiprocessing.get_context("fork").Pool(16) as pool:
-        for part in pool.imap_unordered(_bfs, jobs):
-            col.merge(part)
+    for part in common.pmap(_bfs, jobs):
+        col.merge(part)
     col.exhaustive = True
     col.extra["exhaustive_scope"] = f"all {k}^{depth} sequences of exactly {depth} operations over a {k}-operation alphabet on an empty message (invariants after every step, so all shorter sequences are covered as prefixes)"
     for path, rec in common.load_replays(PID):
